@@ -108,6 +108,7 @@ func runCase(c J) (res interface{}) {
 			res = J{"panic": msg}
 		}
 	}()
+	sharedCfgs = nil
 	k, _ := c["k"].(string)
 	fn := kinds[k]
 	if fn == nil {
